@@ -4,6 +4,7 @@ import json
 from vt import core
 from vt.main import decide
 from props import resolve_common as rc
+from translate import resolve_tr
 
 
 def enum_schedules(maxlen, maxdelay):
@@ -24,8 +25,8 @@ def enum_schedules(maxlen, maxdelay):
 
 
 def run(chk):
-    chk.prove([])
-    cases = enum_schedules(4 if chk.thorough else 3, 3 if chk.thorough else 2)
+    chk.prove([resolve_tr.translate])
+    cases = rc.corpus_cases("C08") + enum_schedules(4 if chk.thorough else 3, 3 if chk.thorough else 2)
     # an anchor that resolves late keeps postponed rounds alive: add chained anchors
     n = 1500 if chk.thorough else 250
     for i in range(n):
